@@ -22,6 +22,18 @@ pub fn eval(op: &str, a: &[&str]) -> Option<String> {
             let r = scs.project(parse_nats(a[2])).ok().and_then(|m| m.project(parse_nats(a[3])).ok());
             Some(match r { Some(s) => format!("OK {}|{}", nats(s.shape()), bits(s.inner().as_slice())), None => "ERR".into() })
         }
+        // c03.row shape srcIndex toShape : one row of the operator (unit vector at srcIndex), any size
+        "c03.row" => {
+            let shape = parse_nats(a[0]); let idx = parse_nats(a[1]);
+            let n: usize = shape.iter().product();
+            let mut flat = 0usize; for (i, s) in idx.iter().zip(shape.iter()) { flat = flat * s + i; }
+            let mut unit = vec![0.0; n]; *unit.get_mut(flat)? = 1.0;
+            let scs = Scs::new(unit, shape).ok()?;
+            Some(match scs.project(parse_nats(a[2])) {
+                Ok(s) => format!("OK {}|{}", nats(s.shape()), bits(s.inner().as_slice())),
+                Err(e) => format!("ERR {e}"),
+            })
+        }
         // c03.pmf N K n k
         "c03.pmf" => {
             let v: Vec<u64> = a.iter().map(|x| x.parse().unwrap()).collect();
@@ -78,6 +90,15 @@ pub fn gen(ctx: &Ctx, rng: &mut Rng, out: &mut Vec<String>) {
         out.push(format!("c03.project\t{}\t{}\t{}", nats(s), bits(&data), nats(&longer)));
         if d > 1 { out.push(format!("c03.project\t{}\t{}\t{}", nats(s), bits(&data), nats(&s[..d - 1]))); }
     }
+    // whole rows of the operator at hundreds to thousands of chromosomes (source entry in the middle of the range, target
+    // near half the source and small): mass of a row must stay 1 where single binomials leave the f64 range
+    let rows: &[(usize, usize, usize)] = if ctx.tier_thorough {
+        &[(400, 200, 200), (1100, 550, 550), (1100, 200, 275), (1200, 600, 600), (1200, 400, 300), (1500, 750, 700), (2000, 1000, 1000), (2000, 200, 900), (4000, 200, 2000), (4000, 2000, 1777)]
+    } else { &[(400, 200, 200), (1100, 550, 550), (1200, 600, 600), (1200, 200, 300), (2000, 700, 1000)] };
+    for &(n, m, k) in rows {
+        out.push(format!("c03.row\t{}\t{}\t{}", n + 1, k, m + 1));
+    }
+    out.push(format!("c03.row\t{},{}\t{},{}\t{},{}", 1101, 3, 540, 1, 551, 2));
     // single coefficients at large sizes (the factorial table ends at 170; binomials leave f64 range near 1030)
     let sizes: &[u64] = if ctx.tier_thorough { &[1, 2, 3, 50, 169, 170, 171, 172, 340, 341, 500, 1029, 1030, 1031, 2000, 5000] }
                         else { &[1, 2, 3, 169, 170, 171, 172, 500, 1029, 1030, 2000, 5000] };
